@@ -5,6 +5,8 @@ CONSTANTS
   MaxIds = 2
   Pfx = {"p", "q:"}
   Pool = {"z", "o"}
+  CopyImmediates = FALSE
+  MaxEnvs = 2
   MaxTicks = 2
   StartLibs = {1}
 INVARIANTS
